@@ -950,6 +950,7 @@ func runC18(c *run.Ctx, s *kit.Summary) {
 		if strings.Contains(string(rec.Input), `"scenario"`) || strings.Contains(string(rec.Input), `"e2e"`) {
 			realDialScenarios(s, table, "replay")
 			refreshScenario(s, table, "replay")
+			refreshIdleScenario(s, table, "replay")
 			e2eDial(c, s, table, table.addr, "replay")
 			return
 		}
@@ -1096,6 +1097,7 @@ func runC18(c *run.Ctx, s *kit.Summary) {
 	tag := fmt.Sprintf("x%d", r.Pick(1<<30))
 	realDialScenarios(s, table, tag)
 	refreshScenario(s, table, tag)
+	refreshIdleScenario(s, table, tag)
 	e2eDial(c, s, table, table.addr, tag)
 
 	// custom resolver rotation (package internal/resolver, reached through the vegeta binary)
